@@ -72,9 +72,6 @@ def run(seed=0, rounds=6):
             for da in INTS + FLOATS:
                 for _ in range(rounds):
                     a = _rand(rng, da); x = np.array([a], dtype=da)
-                    if np.dtype(da).kind == 'f' and a != 0 and float(a) in (0.25, 0.5, 1.0, 2.0, 4.0, -2.0, -0.5, 8.0, 16.0):
-                        exp = np.reciprocal(x); got = np.reciprocal(_const(a, da)); n += 1
-                        if got.dtype != exp.dtype or _val(got) != fractions.Fraction(exp[0].item()): problems.append(f'reciprocal({da}={a}): {_val(got)} != numpy {exp[0]}')
                     for nm, f in (('abs', np.abs), ('negative', np.negative)):
                         if np.dtype(da).kind == 'u' and nm == 'abs': continue
                         exp = f(x); got = f(_const(a, da)); n += 1
